@@ -78,6 +78,8 @@ EX = [
     ('exc_custom', ">>> class E{k}(Exception):\n...     pass\n>>> raise E{k}(T({k}, 'cu'))"),
     ('exc_nomsg', ">>> raise RuntimeError if T({k}, 1) else None"),
     ('exc_multiline_msg', ">>> raise ValueError(T({k}, 'l1\\nl2'))"),
+    ('exc_note', ">>> e{k} = ValueError(T({k}, 'm'))\n>>> e{k}.add_note('a note')\n>>> raise e{k}"),
+    ('exc_syntax', ">>> compile(T({k}, '1 +'), 's', 'eval')"),
 ]
 EXD = dict(EX)
 SPECIAL_WANT = {'dir_comma': '[0, ..., 19] a b', 'dir_space': '[0, ..., 19] a b', 'ell': '[0, 1, ..., 19]', 'skipd': 'nope', 'nws': 'a b',
@@ -106,8 +108,10 @@ def std_outputs(text):
             gots[example.lineno] = got
 
         def report_unexpected_exception(self, out, test, example, exc_info):
-            gots[example.lineno] = ('Traceback (most recent call last):\n' +
-                                    traceback.format_exception_only(*exc_info[:2])[-1])
+            fe = traceback.format_exception_only(*exc_info[:2])
+            if issubclass(exc_info[0], SyntaxError):
+                fe = [l for l in fe if not l.startswith(' ')]       # message line and notes, not the source / caret lines
+            gots[example.lineno] = 'Traceback (most recent call last):\n' + ''.join(fe)
     r = R(optionflags=0, verbose=False)
     with contextlib.redirect_stderr(io.StringIO()):
         r.run(test, out=lambda s: None, clear_globs=False)
